@@ -410,9 +410,13 @@ package app
 //@   assigns self.TxCounts, self.NonceTracker
 //@   ensures s.TxCounts != nil && fresh(s.TxCounts) && ntInv(s.NonceTracker) && fresh(s.NonceTracker)
 //@   ensures forall a Arr :: !has(s.TxCounts, a)
-//@ // the state file is written by gob/os code outside the verifier's reach; it does not touch the mempool gate
+//@ // C09: writing the state file is driven by the wall clock, so it must not change anything but the bookkeeping
+//@ // of when it last happened (frame: LastSaved only) - gob/os calls are assumed not to touch the Go heap
+//@ func (*ShutterApp).PersistToDisk
+//@   requires app != nil
+//@   assigns app.ShutterApp.LastSaved
 //@ func (*ShutterApp).maybePersistToDisk
-//@   trusted
+//@   requires app != nil
 //@   assigns app.ShutterApp.LastSaved
 //@ func (*ShutterApp).Commit
 //@   requires app != nil && app.CheckTxState != nil
